@@ -33,3 +33,10 @@ static inline pstr smap_lookup(struct smap *m, strref name) { if (m->hit) return
 static inline size_t smap_count(struct smap *m, strref name) { return m->hit ? 1 : 0; }
 char g_root_scope_marker;
 static inline struct Scope *manifest_root_scope(void *manifest) { return (struct Scope *)&g_root_scope_marker; }
+const char *g_guard_name; strref g_cur_name;   /* the name pushed on the active-variable list (0: none); the name being looked up */
+VERIF_VEC(vec_name, strref)
+unsigned g_errors;
+#define ACTIVE(ctx, nm) (((ctx)->activeRuleVariables.len > 0 && (ctx)->activeRuleVariables.ptr[0].ptr == (nm).ptr) || ((ctx)->activeRuleVariables.len > 1 && (ctx)->activeRuleVariables.ptr[1].ptr == (nm).ptr))
+static inline _Bool name_same(strref a, strref b) { return a.ptr == b.ptr; }
+static inline void active_push(vec_name *v, strref n) { __CPROVER_assert(v->len < v->cap, "vector model: room for one more element (ghost capacity)"); v->ptr[v->len] = n; v->len = v->len + 1; g_guard_name = n.ptr; }
+static inline void active_pop(vec_name *v) { __CPROVER_assert(v->len > 0, "pop_back of a non-empty list"); v->len = v->len - 1; g_guard_name = 0; }
